@@ -282,13 +282,14 @@ class SymBackend(BackendBase):
             self.I.dict_setitem(d, k, v)
         return d
 
-    def uf(self, name, domains, ret="bool", fault=False, fault_cls="HarnessFault"):
+    def uf(self, name, domains, ret="bool", fault=False, fault_cls="HarnessFault", unhashable=False):
         ft = None
         if fault:
             ft = z3.Int("h_" + name + "_fault")
             self.ctx.assume(ft >= -1)
         u = self.I.make_ufunc("uf_" + name, len(domains), ret, fault=ft,
                               fault_exc=self.classes[fault_cls], label=name)
+        u.unhashable = unhashable       # a callable object that defines __eq__ without __hash__
         self.by_oid[u.oid] = name
         self.objects[name] = u
         self.holes.append(("uf", name, u, [list(d) for d in domains], ft))
